@@ -280,6 +280,13 @@ func symbolCase(l *mc.Local, rd gozxing.Reader, c *fcase) {
 	o := read(rd, c.Reader, draw(c), c.Scale, c.Path)
 	bad := badKey[c.Kind]
 	if c.Orig != "" { // substitution in a Code 128 / 93 / 39 symbol
+		if n := len(c.Vals); c.Kind == "code128" && n >= 3 && ref.Code128Check(c.Vals[:n-1]) == c.Vals[n-1] {
+			// the substituted character carries a weight that is a multiple of 103 (symbols of more than 103
+			// characters): the check character still verifies, so no reader can tell - outside the property
+			l.Count("evaluations", 1)
+			l.Count("substitutions that the mod-103 check cannot see (weight = 0 mod 103)", 1)
+			return
+		}
 		if valid {
 			// cannot happen for a single substitution (proved in the Assume text); counted, not judged
 			l.Count("evaluations", 1)
@@ -657,6 +664,33 @@ func c128Symbols() []vsym {
 			}
 		}
 	}
+	// long symbols: the check character is a weighted sum modulo 103 whose weights reach 103 after 103
+	// symbol characters and 206 after 206: lengths on both sides of those marks (uniform code set B and
+	// a plan that alternates sets A and B with a switch character before every character)
+	for _, n := range []int{99, 100, 101, 102, 103, 104, 110, 204, 205, 206, 207} {
+		t := make([]byte, n)
+		for i := range t {
+			t[i] = "Code 128 ~ long SYMBOL|"[i%22]
+		}
+		if v, err := ref.Code128Plan(string(t), strings.Repeat("B", n)); err == nil {
+			v = append(v, ref.Code128Check(v))
+			out = append(out, vsym{string(t), v})
+		}
+	}
+	for _, n := range []int{50, 51, 52, 60, 103} {
+		t := make([]byte, n)
+		plan := make([]byte, n)
+		for i := range t {
+			t[i], plan[i] = 'a', 'B'
+			if i%2 == 1 {
+				t[i], plan[i] = 1, 'A'
+			}
+		}
+		if v, err := ref.Code128Plan(string(t), string(plan)); err == nil {
+			v = append(v, ref.Code128Check(v))
+			out = append(out, vsym{string(t), v})
+		}
+	}
 	return out
 }
 
@@ -682,6 +716,17 @@ func c93Symbols() []vsym {
 		if key := fmt.Sprint(v); !seen[key] {
 			seen[key] = true
 			out = append(out, vsym{string(t), v})
+		}
+	}
+	// long symbols: the C weights wrap after 20, the K weights after 15 symbol characters
+	for _, n := range []int{13, 14, 15, 16, 19, 20, 21, 22, 30, 31, 40, 41, 45, 46, 60, 61} {
+		t := make([]byte, n)
+		for i := range t {
+			t[i] = "CODE 93-LONG.$/+%Z9"[i%19]
+		}
+		if v, err := ref.Code93Values(string(t)); err == nil {
+			c, k := ref.Code93Checks(v)
+			out = append(out, vsym{string(t), append(v, c, k)})
 		}
 	}
 	return out
